@@ -59,7 +59,7 @@ Qed.
 
 Definition fails (ft : faults) (sizes : list Z) : Prop :=
   ft_dial ft = true \/ ft_src_shard_missing ft = true \/ ft_snap ft = SnapFail \/
-  (exists k, ft_cut ft = Some k /\ k < stream_len sizes) \/
+  (exists k, ft_cut ft = Some k /\ k < stream_len sizes) \/ ft_src_fail ft <> None \/
   ft_create_shard ft = true \/ ft_response_lost ft = true.
 
 Lemma copy_failed_not_advertised ft stem now base sizes src dst node owners :
@@ -77,9 +77,12 @@ Proof.
   2:{ destruct (ft_create_shard ft); [split; reflexivity|]. cbn. split; reflexivity. }
   destruct Hf as [Hf|Hf].
   { unfold backup in Eb. rewrite Hf in Eb. cbn in Eb. discriminate. }
+  destruct (ft_src_fail ft) as [[k hdr]|] eqn:Esf.
+  { destruct (ft_create_shard ft) eqn:Ec; [split; reflexivity|].
+    rewrite restore_not_marker by (destruct hdr; discriminate). split; reflexivity. }
   destruct (stream_end sizes (ft_cut ft) (length ms)) as [n ek] eqn:Es.
   destruct (ft_create_shard ft) eqn:Ec; [split; reflexivity|].
-  destruct Hf as [(k & Hk & Hlt)|[Hf|Hf]]; [|discriminate|].
+  destruct Hf as [(k & Hk & Hlt)|[Hf|[Hf|Hf]]]; [|contradiction|discriminate|].
   - rewrite Hk in Es. cbn [stream_end] in Es.
     pose proof (restore_cut_fails base (match dst with Some d => d | None => empty_dshard end) ms sizes k Hlt) as Hr.
     rewrite Es in Hr. cbn [fst snd] in Hr. rewrite Hr. split; reflexivity.
@@ -103,6 +106,9 @@ Proof.
   destruct (restore_backup_eq_lemma stem now base src Hwf) as (s' & ms & d & Hb & Hr & Hread).
   rewrite Hsnap, Hb.
   assert (Hms : ms = walk base (sh_files (write_snapshot stem now src))) by (unfold backup in Hb; cbn in Hb; inversion Hb; reflexivity).
+  destruct (ft_src_fail ft) as [[k0 hdr]|] eqn:Esf.
+  { destruct (ft_create_shard ft); [discriminate|].
+    rewrite restore_not_marker by (destruct hdr; discriminate). discriminate. }
   destruct (stream_end sizes (ft_cut ft) (length ms)) as [n ek] eqn:Es.
   destruct (ft_create_shard ft); [discriminate|].
   destruct (restore base empty_dshard ms n ek) as [d1|] eqn:Er; [|discriminate].
@@ -176,3 +182,17 @@ Qed.
 (* and nothing else: a member of an incremental archive is a member of the full one, newer than [since] *)
 Lemma since_only_newer since ms m : In m (since_filter (Some since) ms) -> In m ms /\ since < m_mtime m.
 Proof. unfold since_filter. intros H. apply filter_In in H. destruct H as [H1 H2]. split; [exact H1|lia]. Qed.
+
+(* the pinned tree: tar.Stream closed the tar writer in a deferred call, so a walk that failed
+   between two members was followed by the end-of-archive marker and the partial archive was
+   installed as a complete backup *)
+Lemma source_error_trailer_accepted_unpatched :
+  exists s base d,
+    let ms := walk base (sh_files s) in
+    wf_files (sh_files s) = true /\
+    restore base empty_dshard ms 1 EndMarker = Some d /\
+    dshard_read d k_w 0 10 true <> shard_read s k_w 0 10 true.
+Proof.
+  exists two_files, [100]%N. eexists. cbn zeta.
+  split; [vm_compute; reflexivity|]. split; [vm_compute; reflexivity|]. vm_compute. discriminate.
+Qed.
